@@ -63,6 +63,15 @@ def library_view(text: str, t0: float | None = None, timeout: float = 300.0, tz:
     pid = os.fork()
     if pid == 0:
         os.close(r)
+        try:
+            import ctypes
+
+            ctypes.CDLL(None).prctl(1, signal.SIGKILL)
+            import resource
+
+            resource.setrlimit(resource.RLIMIT_AS, (6 << 30, 6 << 30))
+        except Exception:
+            pass
         _child(text, t0, w, tz)
         os._exit(0)
     os.close(w)
